@@ -54,3 +54,46 @@ def gen_case(rng, chan, Ns=(2, 4), Ms=(1, 2), origin=0, profile=None):
     for _ in range(40):
         sched += list(range(nthreads))
     return mk_case(chan, N, M, k, origin, progs, sched, {"profile": profile})
+
+# ------------------------------------------------------------------------------------------- oracles
+def uni_oracle_exactly_once(case, recs):
+    """C01 at the channel level, on the observable history only: every yielded value was sent, no value is yielded twice,
+    per-producer order is kept within each stream's yields, Full hands back a payload that was given to that very call, and a
+    send answered Full is never yielded (payload ids are unique per case)."""
+    hits = []
+    sent = {}
+    for t, p in enumerate(case.meta["progs"]):
+        for n, a in p:
+            if n in ("send", "sendw"): sent[a[0]] = t
+    ok = [r[3] for r in recs if r[0] == "ret" and r[2] == 10]
+    full = [r[3] for r in recs if r[0] == "ret" and r[2] == 11]
+    yields = [(r[3], r[4]) for r in recs if r[0] == "ret" and r[2] == 12]
+    seen = set()
+    for v, i in yields:
+        if v not in sent: hits.append((None, "stream %d yielded %d which was never sent" % (i, v)))
+        if v in seen: hits.append((None, "value %d yielded twice" % v))
+        seen.add(v)
+        if v in full: hits.append((None, "value %d was rejected as full and yet yielded" % v))
+    for v in full:
+        if v not in sent: hits.append((None, "rejected send handed back %d which was never given to it" % v))
+    # per stream, per producer: send order
+    per = {}
+    for v, i in yields:
+        if v in sent: per.setdefault((i, sent[v]), []).append(v)
+    for (i, t), vs in per.items():
+        if vs != sorted(vs): hits.append((None, "stream %d yields producer %d's events out of order: %s" % (i, t, vs)))
+    for r in recs:
+        if r[0] == "panic": hits.append((None, "panic (kind %d) in thread %d" % (r[2], r[1])))
+    return hits
+
+def uni_nontrivial(case, recs):
+    """a context switch while some send or poll is between its first and last access, and a Pending or Full answer"""
+    active = set(); switch = False; last = None
+    for r in recs:
+        if r[0] == "acc":
+            t = r[1]
+            if last is not None and last != t and active - {t}: switch = True
+            active.add(t); last = t
+        elif r[0] == "ret":
+            active.discard(r[1])
+    return switch and any(r[0] == "ret" and r[2] in (11, 13) for r in recs)
